@@ -188,6 +188,47 @@ def run_seq(spec, seq, ctx):
     lib.clear_caches()
 
 
+def run_reload(spec, ctx):
+    """The model object is loaded anew in place (from its own persisted
+    state): the evaluator that was made for it before is an evaluator over
+    the same model like any other."""
+    import os
+    import tempfile
+    source = models.build(spec, lib)
+    # the object that is loaded into held another model before, and its
+    # evaluator has worked on that
+    model = lib.compile_dict({'Sheet1!A1': 1, 'Sheet1!A2': 2,
+                              'Other!Z9': '=SUM(Sheet1!A1:A2)+1'})
+    old = lib.Evaluator(model)
+    lib.observe(old.evaluate, 'Other!Z9')
+    inputs = {'kind': 'reload', 'model': spec.name}
+    with tempfile.TemporaryDirectory(prefix='xlmc_c05_') as tmp:
+        path = os.path.join(tmp, 'm.json')
+        w = lib.observe(source.persist_to_json_file, path)
+        r = lib.observe(model.construct_from_json_file, path, True)
+    if (w, r) != ('blank', 'blank'):
+        ctx.skip('model-does-not-round-trip (C12)')
+        return
+    new = lib.Evaluator(model)
+    want = ref_values(spec)
+    for c in spec.eval_cells:
+        a = lib.observe(old.evaluate, c)
+        b = lib.observe(new.evaluate, c)
+        key = 'C05/%s/reload/%s' % (spec.name, short(c))
+        ctx.check(key + '#old-vs-new', a, b,
+                  ['oracle:other-evaluator', 'history:model-reloaded'],
+                  inputs, c in spec.formulas)
+        if models.agrees(b, want[c]):
+            ctx.ok(key + '#value', b, c in spec.formulas)
+        else:
+            ctx.fail(key + '#value', ['oracle:fresh-value',
+                                      'history:model-reloaded'], inputs,
+                     want[c], b, c in spec.formulas)
+    ctx.count('transitions', 2 * len(spec.eval_cells))
+    ctx.count('states')
+    lib.clear_caches()
+
+
 def restore_environment():
     """(harness) undo what a mutated library left behind, so that one leak
     is one report and not one per later schedule"""
@@ -475,6 +516,7 @@ def plan(tier):
         spec = f()
         cells = spec.eval_cells
         shards.append({'model': spec.name, 'kind': 'procs', 'weight': 5})
+        shards.append({'model': spec.name, 'kind': 'reload'})
         if spec.inputs and not spec.names:
             shards.append({'model': spec.name, 'kind': 'handover',
                            'weight': 3})
@@ -504,6 +546,8 @@ def run_shard(shard, ctx):
         run_deepfail(ctx)
     elif shard['kind'] == 'procs':
         run_procs(spec, ctx)
+    elif shard['kind'] == 'reload':
+        run_reload(spec, ctx)
     elif shard['kind'] == 'handover':
         run_handover(spec, ctx)
     elif shard['kind'] == 'seq':
@@ -527,6 +571,8 @@ def replay(inputs, ctx):
         run_deepfail(ctx)
     elif inputs['kind'] == 'procs':
         run_procs(spec, ctx)
+    elif inputs['kind'] == 'reload':
+        run_reload(spec, ctx)
     elif inputs['kind'] == 'handover':
         run_handover(spec, ctx)
     elif inputs['kind'] == 'seq':
